@@ -50,18 +50,6 @@ def lookup (extra : List CStr) (p : CStr) : Option Kind :=
 
 def whoObj : String := "/c15/obj"
 
-/-- `check_valid_path (path, current_object, op, w)` with the master following `pol` -/
-def ask (pol : Policy) (w : Bool) (path : CStr) (op : String) : List Ev × Option CStr :=
-  let v := pol.verdict w path
-  ([.valid w path whoObj op v], checkValidPath true v path)
-
-/-- efuns that make one libc call on the approved path -/
-def single (pol : Policy) (w : Bool) (op fn : String) (fw : Bool) (a : CStr) : List Ev :=
-  let (e, r) := ask pol w a op
-  e ++ match r with
-    | none => []
-    | some p => [.fs fn fw p]
-
 /-- part after the last '/' (`cp = strrchr (from, '/'); cp ? cp + 1 : from`) -/
 def baseName (p : CStr) : CStr := (p.reverse.takeWhile (· ≠ '/')).reverse
 
@@ -146,6 +134,45 @@ def getDirFs (ex : List CStr) (P : CStr) (flags1 : Bool := false) : List Ev :=
   | some _ =>
     if !cut ∧ temp ≠ dot then [.fs "stat" false temp]
     else [.fs "stat" false temp, .fs "opendir" false temp] ++ entryStats ex flags1 temp none
+
+def masterObj : String := "/c15/master"
+
+/-- one-libc-call efuns as a NESTED call by the master (the master asks itself and answers 1) -/
+def nestedSingle (w : Bool) (op fn : String) (fw : Bool) (a : CStr) : List NEv :=
+  .valid w a true op .ok :: match checkValidPath true .ok a with
+    | none => []
+    | some p => [.fs fn fw p]
+
+/-- what the file efun `g (p)` does when the MASTER calls it from inside valid_read / valid_write (re-entrant
+    master): the efuns a master typically uses there — consult an access list (`read_file`, `file_size`,
+    `tail`), log the request (`write_file`).  The inner consultation is answered with 1 and is not nested again. -/
+def nestedEvents (g : String) (p : CStr) : List NEv :=
+  match g with
+  | "read_file" => nestedSingle false "read_file" "open" false p
+  | "file_size" => nestedSingle false "file_size" "stat" false p
+  | "write_file" => nestedSingle true "write_file" "fopen" true p
+  | "tail" => nestedSingle false "tail" "fopen" false p
+  | _ => [.note s!"badnested {g}"]
+
+/-- the nested call a re-entrant master makes before it answers -/
+def nestPrefix : Policy → List Ev
+  | .nested g p _ => [.nest g masterObj [p] (nestedEvents g p)]
+  | _ => []
+
+/-- `check_valid_path (path, current_object, op, w)` with the master following `pol`; a re-entrant master first
+    makes its own efun call (`Ev.nest`), then answers -/
+def askEv (pol : Policy) (w : Bool) (path : CStr) (op : String) : List Ev :=
+  nestPrefix pol ++ [.valid w path whoObj op (pol.verdict w path)]
+
+def ask (pol : Policy) (w : Bool) (path : CStr) (op : String) : List Ev × Option CStr :=
+  (askEv pol w path op, checkValidPath true (pol.verdict w path) path)
+
+/-- efuns that make one libc call on the approved path -/
+def single (pol : Policy) (w : Bool) (op fn : String) (fw : Bool) (a : CStr) : List Ev :=
+  let (e, r) := ask pol w a op
+  e ++ match r with
+    | none => []
+    | some p => [.fs fn fw p]
 
 def getDir (pol : Policy) (ex : List CStr) (a : CStr) (flags1 : Bool := false) : List Ev :=
   let (e, r) := ask pol false a "stat"
